@@ -97,7 +97,7 @@ C08_PALETTE = ["des_crypt", "bsdi_crypt", "md5_crypt", "apr_md5_crypt", "sha1_cr
                "sun_md5_crypt", "fshp", "ldap_salted_md5", "ldap_salted_sha256", "ldap_salted_sha512", "ldap_md5", "django_salted_md5",
                "django_pbkdf2_sha1", "atlassian_pbkdf2_sha1", "grub_pbkdf2_sha512", "mssql2000", "mssql2005", "oracle11", "ldap_md5_crypt",
                "ldap_sha256_crypt", "ldap_sha512_crypt", "ldap_sha1_crypt", "ldap_des_crypt", "ldap_bsdi_crypt", "ldap_bcrypt", "django_bcrypt",
-               "hex_sha1", "hex_sha256", "hex_sha512", "cisco_type7", "scram", "django_des_crypt", "bigcrypt"]
+               "hex_sha1", "hex_sha256", "hex_sha512", "cisco_type7", "scram", "django_des_crypt", "bigcrypt", "dlitz_pbkdf2_sha1"]
 HEXLEN = {"hex_md5": 32, "nthash": 32, "hex_sha1": 40, "hex_sha256": 64, "hex_sha512": 128}
 PWS = ["pw", "secret", "Pw", "pässword", "p w", "x", "correct horse"]
 CATS = ["admin", "staff"]
@@ -245,7 +245,18 @@ def build_context(cfg):
             # schemes handed over as pre-configured hasher OBJECTS (H.using(...)) instead of names plus '<scheme>__option' keys
             import passlib.hash
 
-            cfg["schemes"] = [getattr(passlib.hash, s).using(relaxed=True, **objs[s]) if isinstance(s, str) and s in objs else s for s in cfg["schemes"]]
+            def mk(s):
+                kw = dict(objs[s])
+                donor = kw.pop("_from_deprecating_context", False)
+                h = getattr(passlib.hash, s).using(relaxed=True, **kw)
+                if donor:
+                    # the object comes out of ANOTHER application's context, where this scheme is deprecated: what that context
+                    # thought of it must not follow it here
+                    other = "md5_crypt" if s != "md5_crypt" else "sha256_crypt"
+                    h = CryptContext(schemes=[other, h], deprecated=[s]).handler(s)
+                return h
+
+            cfg["schemes"] = [mk(s) if isinstance(s, str) and s in objs else s for s in cfg["schemes"]]
         return CryptContext(**cfg)
 
 
@@ -339,6 +350,8 @@ def _gen_policy_program(rng, tier):
                 parts = k.split("__")
                 if len(parts) == 2 and parts[0] == s and parts[1] in ("min_rounds", "max_rounds", "default_rounds", "rounds"):
                     obj[parts[1]] = cfg.pop(k)
+            if rng.random() < 0.4:
+                obj["_from_deprecating_context"] = True
             cfg["scheme_objects"] = {s: obj}
     costed_here = [s for s in cfg["schemes"] if s in COSTED]
     if costed_here and rng.random() < 0.15:
@@ -401,7 +414,7 @@ def _gen_storage_program(rng, tier):
         tail.append("unix_disabled")
     if rng.random() < 0.3:
         tail.append("plaintext")
-    users = [{"scheme": rng.choice(schemes), "pw": rng.choice(PWS)} for _ in range(rng.randint(1, 4))]
+    users = [{"scheme": rng.choice(schemes), "pw": rng.choice(PWS), "ident": rng.choice(["2a", "2a", "2b", "2y"])} for _ in range(rng.randint(1, 4))]
     ops = []
     kinds = [k_ for k_ in FAULT_KINDS["C08"][:-1] if k_ != "cold_start"] + ["intact"]  # ("intact": the record exactly as stored, possibly handed over as bytes)
     if tier == "thorough" and rng.random() < 0.5:
@@ -429,6 +442,10 @@ def _gen_config_program(rng, tier):
     if rng.random() < 0.3:
         # a scheme that takes a context keyword: calls then carry user=, which the context must keep filtering for the others
         cfg["schemes"].insert(rng.randint(0, len(cfg["schemes"])), rng.choice(USER_SCHEMES))
+    if rng.random() < 0.2:
+        # a free-text option: the disabled-account marker -- also with '%', which the INI writer must escape and the reader undo
+        cfg["schemes"].append("unix_disabled")
+        cfg["unix_disabled__marker"] = rng.choice(["!", "*", "!%nologin", "*%LK%", "!100%", "!%%"])
     # custom (unregistered) hashers can only wrap real classes, not PrefixWrapper objects
     faulty = rng.random() < 0.45 and not any(w in cfg["schemes"] for w in WRAPPERS)
     ops = []
@@ -732,7 +749,10 @@ class _PolicyRun:
         if s is None or self.model.window_empty(s, cat):
             return
         want, why = self.model.needs_update(h, cat)
-        if self.alt():
+        if self.alt() and self.ctx.n_ops % 8 == 7:
+            self.ctx.probe("entry_point_alias")
+            r = _call(self.cc.needs_update, h, scheme=s, category=cat)  # the scheme named explicitly (deprecated keyword), with a category
+        elif self.alt():
             self.ctx.probe("entry_point_alias")
             r = _call(self.cc.hash_needs_update, h, None, cat)  # legacy alias, (hash, scheme, category) positionally
         else:
@@ -919,9 +939,13 @@ def damage(h, kind, pos, byte, other):
         runs = [(m.start(), m.end()) for m in re.finditer(r"[0-9]+", h)]
         if len(h) >= 2 and h[:2].isdigit():
             runs.append((0, 2))  # a fixed-width two-digit head field (e.g. Cisco type 7's salt)
+        # an EMPTY field between two '$' is a numeric field too where a format writes its default that way: it gets a number
+        runs += [(i_ + 1, i_ + 1) for i_ in range(len(h) - 1) if h[i_:i_ + 2] == "$$"]
         if not runs:
             return h
         a, b = runs[pos % len(runs)]
+        if a == b:
+            return h[:a] + ["0", "1", "00", "190"][(ord(byte[0]) if byte else 0) % 4] + h[b:]
         v = int(h[a:b])
         m_ = [1, 53, 64, 256, 65536, 2 ** 32][(ord(byte[0]) if byte else 0) % 6]
         new = str(v + m_).rjust(b - a, "0")
@@ -958,9 +982,14 @@ class _StorageRun:
                 if self.records[-1]["ex"] is None:
                     raise RuntimeError(f"extractor cannot read the constant {u['scheme']} hash {h!r}")
                 continue
+            kw_ = {"rounds": c} if c is not None else {}
+            if u["scheme"] == "dlitz_pbkdf2_sha1" and u.get("ident") == "2a":
+                kw_["rounds"] = 400  # (the format's default cost, which it writes as an EMPTY rounds field)
+            if u["scheme"] in ("bcrypt", "ldap_bcrypt", "django_bcrypt") and u.get("ident"):
+                kw_["ident"] = u["ident"]  # (records written by older installations carry the older variant identifiers)
             with warnings.catch_warnings():
                 warnings.simplefilter("ignore")
-                h = H.using(**({"rounds": c} if c is not None else {})).hash(u["pw"])
+                h = H.using(**kw_).hash(u["pw"])
             ex = self.extract(u["scheme"], h)
             if ex is None:
                 raise RuntimeError(f"extractor cannot read a fresh {u['scheme']} hash {h!r}")  # harness error, not a finding
@@ -1040,6 +1069,7 @@ class _StorageRun:
                 (re.compile(r"^pbkdf2_sha1\$\s*\+?([0-9_]+)"), "int", 30000),
                 (re.compile(r"^grub\.pbkdf2\.sha512\.\s*\+?([0-9_]+)"), "int", 30000),
                 (re.compile(r"^\$scram\$\s*\+?([0-9_]+)"), "int", 10000),
+                (re.compile(r"^\$p5k2\$([0-9a-fA-F]+)\$"), "hex", 30000),
             ]
         from simkit.refmodels.extract import H64
 
@@ -1051,6 +1081,8 @@ class _StorageRun:
             try:
                 if how == "int":
                     v = int(g.strip("_") or "0")
+                elif how == "hex":
+                    v = int(g, 16)
                 elif how == "h64":
                     v = H64.index(g)
                 else:
@@ -1082,7 +1114,9 @@ class _StorageRun:
             ctx.check(ok, "C08", "identify-raises", lambda: f"{name}.identify({arg!r}) -> {r[:2]}", via=name, **attrs)
         # (2) verification and update checks answer, or raise the documented value/type error
         outcomes = {}
-        for name, fn, a in (("handler.verify", H.verify, (pw, arg)), ("context.verify", self.cc.verify, (pw, arg)),
+        # (the deprecated genhash(secret, config) first: it parses the same string and must leave nothing behind for the calls after it)
+        for name, fn, a in (("handler.genhash", H.genhash, (pw, arg)),
+                            ("handler.verify", H.verify, (pw, arg)), ("context.verify", self.cc.verify, (pw, arg)),
                             ("handler.needs_update", H.needs_update, (arg,)), ("context.needs_update", self.cc.needs_update, (arg,)),
                             ("context.verify_and_update", self.cc.verify_and_update, (pw, arg))):
             r = _call(fn, *a)
